@@ -211,74 +211,101 @@ def sleep_protocol(rep: Report, r1: str, r2: str, prog: Program) -> None:
 
 
 def sleep_action_tables(rep: Report, rid: str, prog: Program) -> None:
+    """effect tables of the two sleep steps, decided on `_sync_sleep_action` / `_async_sleep_action` as wholes with the
+    decision step (`_handle_sleep_decision`, where it is a function of its own) read through: whether the handling of
+    the handler's answer lives in a helper or in the sleep step itself is the code's business"""
     state = ("param", "state")
-    for fn in ("_sync_sleep_action", "_async_sleep_action"):
-        fi = prog.func(f"{HELPERS}:{fn}")
-        rep.analysed(fi.qual)
-        for p in engine(prog).paths(fi):
-            rep.instance(rid, f"{fn}|" + "|".join(p.describe()[-3:])[:140])
-            problem = None
-            handler_present = any(a == ("cmp", "is", ("param", "sleep_fn"), ("const", None)) and not pol for a, pol, _ in p.conds)
-            handler_absent = any(a == ("cmp", "is", ("param", "sleep_fn"), ("const", None)) and pol for a, pol, _ in p.conds)
-            n_handler = sum(1 for e in p.calls() if e.callback() == "sleep_handler")
-            if p.exit[0] == "return" and handler_present and n_handler != 1:
-                problem = f"a sleep handler is configured but consulted {n_handler} times on this path"
-            if not (handler_present or handler_absent) and p.exit[0] == "return":
-                problem = "the presence of a sleep handler is not tested"
-            for e in p.calls():
-                if e.callback() == "sleep_handler":
-                    if e.args != [DEC_CTX, DEC_SLEEP]:
-                        problem = f"sleep handler receives {[show(a) for a in e.args]}"
-                if e.is_repo(":_call_before_sleep") or e.is_repo(":_call_before_sleep_async"):
-                    # by parameter name (positional arguments are bound to the callee's names by the engine)
-                    if sorted(e.kwargs.values(), key=repr) != sorted([("param", "before_sleep"), DEC_CTX, DEC_SLEEP], key=repr) or e.kwargs.get("sleep_s", DEC_SLEEP) != DEC_SLEEP or e.kwargs.get("ctx", DEC_CTX) != DEC_CTX:
-                        problem = f"before_sleep wrapper receives {[(k, show(a)) for k, a in e.kwargs.items()]}"
-                if e.callback() == "sleeper" or e.is_repo(":_call_async_sleeper"):
-                    a = e.args[-1] if e.args else None
-                    if a != DEC_SLEEP:
-                        problem = f"sleeper receives {show(a)}"
-                if e.is_repo(":_handle_sleep_decision"):
-                    hc = [x for x in p.calls() if x.callback() == "sleep_handler"]
-                    want_kw = {"action": hc[0].result if hc else None, "state": ("param", "state"), "attempt": ("param", "attempt"), "decision": ("param", "decision")}
-                    if not hc or dict(e.kwargs) != want_kw:
-                        problem = f"_handle_sleep_decision receives {[(k, show(a)) for k, a in e.kwargs.items()]}"
-            if problem:
-                rep.fail(rid, f"{fn}|{problem[:40]}", f"{fn}: {problem}", where=fi.where(), function=fi.qual, path=p.describe())
-            else:
-                rep.ok(rid)
-    hd = prog.func(f"{HELPERS}:_handle_sleep_decision")
-    rep.analysed(hd.qual)
-    for p in engine(prog).paths(hd):
-        which = None
-        for a, pol, _ in p.conds:
-            if a[0] == "cmp" and a[2] == ("param", "action") and pol:
-                which = enum_name(a[3], "SleepDecision")
-        emits = [emit_info(e) for e in p.events if is_emit(e)]
-        stores = [(enum_name(e.value, "StopReason")) for e in p.stores() if e.loc == attr(state, "last_stop_reason")]
-        rep.instance(rid, f"_handle_sleep_decision|{which}|{len(emits)}")
-        problem = None
-        if which is None:
-            if p.exit[0] != "raise" or p.exit[1] != "ValueError":
-                problem = f"non-member answer must raise ValueError; found {p.exit[:2]}"
-        else:
-            if p.exit != ("return", ("param", "action")):
-                problem = f"{which}: the action is not returned unchanged ({p.exit})"
-            if which == "SLEEP" and (emits or stores):
-                problem = "SLEEP must not emit or write the stop reason"
-            if which == "DEFER":
-                if stores != ["SCHEDULED"] or len(emits) != 1 or emits[0]["event_name"] != "SCHEDULED" or emits[0]["reason_name"] != "SCHEDULED" or emits[0]["sleep_s"] != DEC_SLEEP or emits[0]["attempt"] != ("param", "attempt"):
-                    problem = f"DEFER must set SCHEDULED and emit `scheduled` with sleep_s=decision.sleep_s; found stores {stores} emits {[(e['event_name'], e['reason_name'], show(e['sleep_s'])) for e in emits]}"
-            if which == "ABORT":
-                already = any(a == ("cmp", "is", attr(state, "last_stop_reason"), ("enum", "StopReason", "ABORTED")) and pol for a, pol, _ in p.conds)
-                if already:
-                    if emits or stores:
-                        problem = "ABORT when already aborted must not emit again"
-                elif stores != ["ABORTED"] or len(emits) != 1 or emits[0]["event_name"] != "ABORTED" or emits[0]["reason_name"] != "ABORTED":
-                    problem = f"ABORT must set ABORTED and emit `aborted` once; found stores {stores} emits {[(e['event_name'], e['reason_name']) for e in emits]}"
-        if problem:
-            rep.fail(rid, f"_handle_sleep_decision|{which}|{problem[:40]}", f"_handle_sleep_decision: {problem}", where=hd.where(), function=hd.qual, path=p.describe())
-        else:
-            rep.ok(rid)
+    hd_q = f"{HELPERS}:_handle_sleep_decision"
+    if hd_q in prog.funcs:
+        rep.analysed(hd_q)
+    eng = engine(prog)
+    inline0 = eng.inline
+    eng.inline = lambda f, inline0=inline0: bool(inline0 and inline0(f)) or f.qual == hd_q
+    try:
+        for fn in ("_sync_sleep_action", "_async_sleep_action"):
+            fi = prog.func(f"{HELPERS}:{fn}")
+            rep.analysed(fi.qual)
+            seen_dec: set = set()
+            for p in eng.paths(fi, raises=lambda ev, cfg: (), key="c16-sleep-step"):
+                # the same test taken both ways, or the answer equal to two different members: not a path of the program
+                pols: dict = {}
+                members: set = set()
+                infeasible = False
+                for a, pol, _ in p.conds:
+                    if pols.setdefault(repr(a), pol) != pol:
+                        infeasible = True
+                    if a[0] == "cmp" and a[1] in ("is", "==") and pol and isinstance(a[3], tuple) and a[3][:2] == ("enum", "SleepDecision"):
+                        members.add((repr(a[2]), a[3]))
+                if infeasible or len({m for _, m in members}) > 1:
+                    continue
+                rep.instance(rid, f"{fn}|" + "|".join(p.describe()[-3:])[:140])
+                problem = None
+                handler_present = any(a == ("cmp", "is", ("param", "sleep_fn"), ("const", None)) and not pol for a, pol, _ in p.conds)
+                handler_absent = any(a == ("cmp", "is", ("param", "sleep_fn"), ("const", None)) and pol for a, pol, _ in p.conds)
+                hc = [e for e in p.calls() if e.callback() == "sleep_handler"]
+                n_handler = len(hc)
+                if p.exit[0] == "return" and handler_present and n_handler != 1:
+                    problem = f"a sleep handler is configured but consulted {n_handler} times on this path"
+                if not (handler_present or handler_absent) and p.exit[0] == "return":
+                    problem = "the presence of a sleep handler is not tested"
+                slept = False
+                hooked = False
+                for e in p.calls():
+                    if e.callback() == "sleep_handler":
+                        if e.args != [DEC_CTX, DEC_SLEEP]:
+                            problem = f"sleep handler receives {[show(a) for a in e.args]}"
+                    if e.is_repo(":_call_before_sleep") or e.is_repo(":_call_before_sleep_async"):
+                        hooked = True
+                        # by parameter name (positional arguments are bound to the callee's names by the engine)
+                        if sorted(e.kwargs.values(), key=repr) != sorted([("param", "before_sleep"), DEC_CTX, DEC_SLEEP], key=repr) or e.kwargs.get("sleep_s", DEC_SLEEP) != DEC_SLEEP or e.kwargs.get("ctx", DEC_CTX) != DEC_CTX:
+                            problem = f"before_sleep wrapper receives {[(k, show(a)) for k, a in e.kwargs.items()]}"
+                    if e.callback() == "before_sleep":
+                        hooked = True
+                        if e.args != [DEC_CTX, DEC_SLEEP]:
+                            problem = f"before_sleep receives {[show(a) for a in e.args]}"
+                    if e.callback() == "sleeper" or e.is_repo(":_call_async_sleeper"):
+                        slept = True
+                        a = e.args[-1] if e.args else None
+                        if a != DEC_SLEEP:
+                            problem = f"sleeper receives {show(a)}"
+                # the answer of the handler, and what is done with it
+                if hc and p.exit[0] in ("return", "raise"):
+                    action = hc[0].result
+                    which = None
+                    for a, pol, _ in p.conds:
+                        if a[0] == "cmp" and a[1] in ("is", "==") and a[2] == action and pol:
+                            which = enum_name(a[3], "SleepDecision")
+                    emits = [emit_info(e) for e in p.events if is_emit(e)]
+                    stores = [(enum_name(e.value, "StopReason")) for e in p.stores() if e.loc == attr(state, "last_stop_reason")]
+                    seen_dec.add(which)
+                    if which is None:
+                        if p.exit[0] != "raise" or p.exit[1] != "ValueError":
+                            problem = problem or f"non-member answer must raise ValueError; found {p.exit[:2]}"
+                    elif p.exit[0] == "return":
+                        if p.exit != ("return", action) and p.exit != ("return", ("enum", "SleepDecision", which)):
+                            problem = problem or f"{which}: the action is not returned unchanged ({p.exit})"
+                        if which == "SLEEP" and (emits or stores):
+                            problem = problem or "SLEEP must not emit or write the stop reason"
+                        if which in ("DEFER", "ABORT") and (slept or hooked):
+                            problem = problem or f"{which}: the run still sleeps / calls before_sleep"
+                        if which == "DEFER":
+                            if stores != ["SCHEDULED"] or len(emits) != 1 or emits[0]["event_name"] != "SCHEDULED" or emits[0]["reason_name"] != "SCHEDULED" or emits[0]["sleep_s"] != DEC_SLEEP or emits[0]["attempt"] != ("param", "attempt"):
+                                problem = problem or f"DEFER must set SCHEDULED and emit `scheduled` with sleep_s=decision.sleep_s; found stores {stores} emits {[(e['event_name'], e['reason_name'], show(e['sleep_s'])) for e in emits]}"
+                        if which == "ABORT":
+                            already = any(a == ("cmp", "is", attr(state, "last_stop_reason"), ("enum", "StopReason", "ABORTED")) and pol for a, pol, _ in p.conds)
+                            if already:
+                                if emits or stores:
+                                    problem = problem or "ABORT when already aborted must not emit again"
+                            elif stores != ["ABORTED"] or len(emits) != 1 or emits[0]["event_name"] != "ABORTED" or emits[0]["reason_name"] != "ABORTED":
+                                problem = problem or f"ABORT must set ABORTED and emit `aborted` once; found stores {stores} emits {[(e['event_name'], e['reason_name']) for e in emits]}"
+                if problem:
+                    rep.fail(rid, f"{fn}|{problem[:40]}", f"{fn}: {problem}", where=fi.where(), function=fi.qual, path=p.describe())
+                else:
+                    rep.ok(rid)
+            if not {"SLEEP", "DEFER", "ABORT", None} <= seen_dec:
+                raise AnalysisError(f"{fn}: handler answers decided on its paths: {sorted(map(str, seen_dec))} (SLEEP, DEFER, ABORT and a non-member expected)")
+    finally:
+        eng.inline = inline0
 
 
 def selectors_and_rest(rep: Report, prog: Program) -> None:
@@ -349,6 +376,13 @@ def selectors_and_rest(rep: Report, prog: Program) -> None:
                                 for e in p.calls():
                                     if e.is_repo(f":{runner}{m}"):
                                         v = e.kwargs.get(kw)
+                                        if v is None:
+                                            # the private runner layers may spell their keywords freely (`before_sleep_hook`,
+                                            # `sleeper_fn`): the keyword that stands for this parameter (C12's table)
+                                            from .c12 import CALL_PARAMS, RENAMES, canonical_keyword
+
+                                            alt = [k for k in e.kwargs if canonical_keyword(k, e, mf, CALL_PARAMS, RENAMES["runner"]) == param]
+                                            v = e.kwargs[alt[0]] if len(alt) == 1 else None
                                         try:
                                             got.add(evaluate(v, leaf) if v is not None else "<not passed>")
                                         except CannotEval:
